@@ -29,8 +29,8 @@ META = {
         "a branch orphaned by an already decided completion policy may keep running (C09/C10 cover it)",
     ],
     "budget": {
-        "quick": {"shards": 4, "random_cases": 170, "min_nontrivial": 40},
-        "thorough": {"shards": 16, "random_cases": 5000, "min_nontrivial": 1500},
+        "quick": {"shards": 4, "random_cases": 170, "sweep_limit": 500, "min_nontrivial": 40},
+        "thorough": {"shards": 16, "random_cases": 5000, "sweep_limit": 4000, "min_nontrivial": 1500},
     },
 }
 
@@ -121,4 +121,30 @@ def classes(run, case):
     return sorted(set(out))
 
 
-install(globals(), props=("C07",), cases=cases, nontrivial=nontrivial, classes=classes)
+def _lag_sweep(ctx):
+    """A branch that re-parks on a resume time that is already due (the backend fires its timers late) next to a sibling
+    that finishes: one long preemption at every executed line of executor.py, plain and with the preempted task
+    descheduled for 0.3 virtual seconds, at top level and inside an outer map."""
+    from .. import wfcheck as WC
+
+    retry = {"op": "step", "beh": {"kind": "fail_by_attempt", "k": 1, "err": "UserError", "v": 1}, "sem": "least", "retry": {"kind": "table", "max": 3, "delays": [1], "nonretry": []}}
+    slow = {"op": "step", "beh": {"kind": "ret", "v": 7}, "sem": "least", "retry": {"kind": "none"}, "sleep": 1.5}
+    most = {"op": "step", "beh": {"kind": "ret", "v": 1}, "sem": "most", "retry": {"kind": "none"}, "yields": 1}
+    tol = {"max_concurrency": None, "completion": {"min": None, "tol": 3, "pct": None}}
+    inner = {"op": "parallel", "branches": [[retry, most], [slow]], "cfg": tol}
+    bases = [("parallel{retrying step; at-most-once step | slow step}", [inner]),
+             ("map[2]{parallel{retrying step; at-most-once step | slow step}}", [{"op": "map", "items": [1, 2], "body": [inner], "cfg": tol}])]
+    n = 0
+    for i, (label, body) in enumerate(bases):
+        for lag in (0.5, 2.0):
+            for order, stall in (("low", 0.0), ("high", 0.3)):
+                n += 1
+                if ctx.nshards > 1 and n % ctx.nshards != ctx.shard % ctx.nshards:
+                    continue
+                base = {"prog": {"body": body}, "backend": {"response": "delta", "timer_lag": lag}, "plan": {"crashes": []}, "line": ["executor"]}
+                WC.line_preempt_sweep(ctx, base, PROPS, nontrivial=nontrivial, classes=lambda r, c: ["one-long-preemption-at-a-line", "lagging-backend-timer"] + classes(r, c),
+                                      limit=ctx.budget.get("sweep_limit", 500), order=order, stall=stall,
+                                      label=f"one long preemption per line of executor.py ({order}, stall {stall}s), timer lag {lag}s: {label}")
+
+
+install(globals(), props=("C07",), cases=cases, nontrivial=nontrivial, classes=classes, stages=(_lag_sweep,))
